@@ -732,6 +732,10 @@ def c04_result(ctx):
         # result of take flows into expect/unwrap, which produces the return value
         ret = render(fn.expr_of_local(0))
         unwrapped = [1 for bb, t in exps if render(fn.expr_of_operand(t['args'][0])).startswith('take(')]
+        # `match slot.take() { Some(v) => v, None => panic!(..) }` is the same as expect(): the result is the Some payload of the take
+        if ret.startswith('(take(') and ret.endswith(' as Some).0'):
+            unwrapped = [1]
+            ret = ret[1:]
         if not created or not unwrapped or not ret.startswith('take('):
             out.append(bad(R, key, 'the returned value is not `slot.take().expect(..)` of a slot created by this call (return value: %s)' % ret[:120], fn=name))
             continue
